@@ -204,8 +204,6 @@ def gen_op(rng, T, v, cfg, families=None):
         op["keys"] = rng.sample(keys, rng.randint(1, len(keys))) if keys else ["nope"]
     elif name == "carry":
         op["index"] = [rng.randint(0, n - 1) for _ in range(rng.randint(0, 5))] if n else []
-        if rng.random() < 0.05:
-            op["index"].append(n)
     elif name in ("num", "flatten", "localindex"):
         op["axis"] = gen_axis(rng, T)
     elif name == "reduce":
@@ -273,7 +271,7 @@ def read(b, h, want_type=True):
     """Content handle -> Outcome(value)"""
     d = b.describe(h)
     t = None
-    if want_type:
+    if want_type and d["c"] not in ("None", "Record") and not d.get("scalar"):
         try:
             t = b.typestr(h)
         except AkError as e:
